@@ -67,6 +67,9 @@ def check(ctx):
         family_rules(ctx, {"b": "C03-n"})
     except AnalysisError as e:  # the clause cannot be evaluated on this tree: the property's own rules still run
         ctx.notes.append(f"C03-n not evaluated: {e}")
+    from .common import check_sorted_lookups
+
+    check_sorted_lookups(ctx, "C03-f", ["bluebonnet.flow.reservoir", "bluebonnet.flow.flowproperties"])  # first: the density rules need an interpolator
     scaling_factor(ctx, "C03-a")
     n = 0
     for cls in ("IdealReservoir", "SinglePhaseReservoir", "TwoPhaseReservoir"):  # the concrete classes: an override in a subclass is seen through its MRO
